@@ -2,8 +2,8 @@ CONSTANTS
   NParts = 1
   Part = 0
   NConns = 1
-  NUp = 2
-  NDown = 2
+  NUp = 1
+  NDown = 0
   MaxTemp = 0
   MaxPerm = 0
   Fields <-F4
@@ -17,6 +17,7 @@ CONSTANTS
   AsIs_Spin = FALSE
   AsIs_SharedConfig = FALSE
   Mut = "none"
-SPECIFICATION GenSpec
+SPECIFICATION Spec
 INVARIANTS TypeOK CopyLaw SocksClosedOnce SfClosedOnce ReplyLaw ConfigIsolation ConfigSeenWhenDue LoopEndsOnlyOnPerm LnClosedByLoop NoSpin NoLeak NoStuck
+PROPERTIES HandlersLeaveLoopAlone ShutdownReachesAll HandlerEnds Replied LoopEnds
 CHECK_DEADLOCK FALSE
